@@ -40,14 +40,13 @@ Definition keyClearScreen : N := 55313.
 Definition keyPasteStart : N := 55314.
 Definition keyPasteEnd : N := 55315.
 Definition runeError : N := 65533.          (* utf8.RuneError = U+FFFD *)
-Definition maxLineLength : nat := 4096.
 Definition inBufSize : nat := 256.
 
 (* reported by the Go driver and compared on every run *)
 Definition key_consts : list N :=
   [keyCtrlC; keyCtrlD; keyCtrlU; keyEnter; keyEscape; keyBackspace; keyUnknown; keyUp; keyDown;
    keyLeft; keyRight; keyAltLeft; keyAltRight; keyHome; keyEnd; keyDeleteWord; keyDeleteLine;
-   keyClearScreen; keyPasteStart; keyPasteEnd; runeError; N.of_nat maxLineLength; N.of_nat inBufSize].
+   keyClearScreen; keyPasteStart; keyPasteEnd; runeError; N.of_nat inBufSize].
 
 (* isPrintable: key >= 32 && !(0xd800 <= key <= 0xdbff) *)
 Definition is_printable (k : N) : bool := (32 <=? k) && negb ((55296 <=? k) && (k <=? 56319)).
@@ -132,7 +131,6 @@ Definition handle_key (t : term) (k : N) : hk_result :=
   else if is_edit_key k then HUnmodelled
   else if k =? keyCtrlD then HCont t            (* erases under the cursor: nothing at end of line *)
   else if negb (is_printable k) then HCont t
-  else if Nat.eqb (length (line t)) maxLineLength then HCont t     (* silently dropped *)
   else HCont (add_key t k).
 
 (* ---- the body of readLine's inner loop for one key ---- *)
